@@ -85,8 +85,9 @@ Definition fit_scaler (cfg : config) (sample_dims : list string) (it : item) : r
   if (c_center cfg || c_std cfg) && negb (str_subset sample_dims (dnames (it_dims it))) then Err EValueError else Ok tt.
 
 Definition fit_renamer (sample_dims : list string) (it : item) : result unit :=
-  (* python: self.dim_mapping[dim] for dim in sample_dims -- a dict look-up *)
-  if negb (str_subset sample_dims (dnames (it_dims it))) then Err EKeyError else Ok tt.
+  (* DimensionRenamer.fit maps the sample dimensions first, then fit_transform renames:
+     xarray: X.rename refuses a key that is not a dimension of X *)
+  if negb (str_subset sample_dims (dnames (it_dims it))) then Err renamer_transform_error else Ok tt.
 
 Definition fit_stacker (cfg : config) (sample_dims : list string) (it : item) : result unit :=
   let dims := dnames (it_dims it) in
@@ -278,8 +279,11 @@ Definition rotator_selected (n_modes : pyval) (avail : Z) : result Z :=
   | VStr _ | VNone => Ok avail
   | _ => Err EValueError
   end.
-Definition rotator_fit_outcome (n_modes : pyval) (avail : Z) : result unit :=
+Definition rotator_fit_outcome (ctor_check : pyval -> result unit) (n_modes : pyval) (avail : Z) : result unit :=
+  ctor_check n_modes ;;
   bind (rotator_selected n_modes avail) (fun k => if (k <? 2)%Z then Err EValueError else Ok tt).
+(* the pinned constructors do not look at n_modes *)
+Definition no_ctor_check (_ : pyval) : result unit := Ok tt.
 
 (* ------------------------------------------------------------------ orders declared by this model *)
 Definition declared_single_fit_order : list string :=
